@@ -7,7 +7,7 @@ use crate::props::c01::{mk, ymd_of};
 use crate::refmodel::civil::*;
 use crate::refmodel::pillar::*;
 use crate::refmodel::terms::*;
-use tyme4rs::tyme::sixtycycle::{SixtyCycleMonth, SixtyCycleYear};
+use tyme4rs::tyme::sixtycycle::{SixtyCycleDay, SixtyCycleMonth, SixtyCycleYear};
 use tyme4rs::tyme::solar::SolarTime;
 use tyme4rs::tyme::{Culture, Tyme};
 
@@ -23,7 +23,7 @@ pub fn ym_of_g(g: usize) -> (i64, usize, usize) {
   }
 }
 
-fn check_day(ctx: &Ctx, civ: &Civil, tm: &Terms, ord: usize, loc: &mut Local) {
+fn check_day(ctx: &Ctx, civ: &Civil, tm: &Terms, ord: usize, routes: bool, loc: &mut Local) {
   let d = civ.date(ord);
   let g = match tm.g_of_day(ord) {
     Some(g) => g,
@@ -62,6 +62,32 @@ fn check_day(ctx: &Ctx, civ: &Civil, tm: &Terms, ord: usize, loc: &mut Local) {
       }
     }
     Err(m) => ctx.violation("month_pillar", fmt_ymd(d), format!("get_sixty_cycle_day panics: {}", m), rp.clone()),
+  }
+  // the other public routes to the same two pillars must agree with the model too
+  if routes {
+    loc.transitions += 3;
+    #[allow(deprecated)]
+    let r = guard(|| {
+      let sd = mk(d);
+      let a = SixtyCycleDay::from_solar_day(sd);
+      let ld = sd.get_lunar_day();
+      let b = ld.get_sixty_cycle_day();
+      vec![
+        ("SixtyCycleDay::from_solar_day", a.get_year().get_name(), a.get_month().get_name()),
+        ("LunarDay::get_sixty_cycle_day", b.get_year().get_name(), b.get_month().get_name()),
+        ("LunarDay::get_year_sixty_cycle / get_month_sixty_cycle", ld.get_year_sixty_cycle().get_name(), ld.get_month_sixty_cycle().get_name()),
+      ]
+    });
+    match r {
+      Ok(v) => {
+        for (route, py, pm) in v {
+          if py != want_y || pm != want_m {
+            ctx.violation("route", format!("{} {}", fmt_ymd(d), route), format!("{}: year pillar {} month pillar {}; model {} {}", route, py, pm, want_y, want_m), rp.clone());
+          }
+        }
+      }
+      Err(m) => ctx.violation("route", fmt_ymd(d), format!("alternative routes panic: {}", m), rp.clone()),
+    }
   }
   // on Jie days: the sexagenary month object and its neighbours are consistent with the Jie days
   if jie_day && y < 9998 {
@@ -121,6 +147,21 @@ fn check_inst(ctx: &Ctx, civ: &Civil, tm: &Terms, inst: i64, loc: &mut Local) {
   });
   let key = format!("{} {:02}:{:02}:{:02}", fmt_ymd(d), s / 3600, s / 60 % 60, s % 60);
   let rp = vec!["inst".to_string(), inst.to_string()];
+  // the lunar-hour routes (incl. the deprecated getters) must agree
+  #[allow(deprecated)]
+  let r2 = guard(|| {
+    let lh = SolarTime::from_ymd_hms(d.0 as isize, d.1 as usize, d.2 as usize, (s / 3600) as usize, (s / 60 % 60) as usize, (s % 60) as usize).get_lunar_hour();
+    let h = lh.get_sixty_cycle_hour();
+    (h.get_year().get_name(), h.get_month().get_name(), lh.get_year_sixty_cycle().get_name(), lh.get_month_sixty_cycle().get_name())
+  });
+  match r2 {
+    Ok((py, pm, py2, pm2)) => {
+      if py != want_y || pm != want_m || py2 != want_y || pm2 != want_m {
+        ctx.violation("route", format!("{} LunarHour", key), format!("LunarHour::get_sixty_cycle_hour year {} month {}; LunarHour::get_year_sixty_cycle {} get_month_sixty_cycle {}; model {} {}", py, pm, py2, pm2, want_y, want_m), rp.clone());
+      }
+    }
+    Err(m) => ctx.violation("route", format!("{} LunarHour", key), format!("lunar-hour routes panic: {}", m), rp.clone()),
+  }
   match r {
     Ok((py, pm)) => {
       if py != want_y {
@@ -183,11 +224,27 @@ pub fn run(ctx: &Ctx) {
   for (a, b) in runs {
     done &= par_chunks(ctx, a, b, 1024, |x, y, l| {
       for o in x..y {
-        check_day(ctx, &civ, &tm, o, l);
+        check_day(ctx, &civ, &tm, o, !ctx.quick() || o % 3 == 0, l);
       }
     });
   }
-  ctx.subspace(&format!("day view: civil dates of {} years ({} dates): year pillar, month pillar, index in year; month objects on every Jie day", years.len(), n), done, n);
+  ctx.subspace(&format!("day view: civil dates of {} years ({} dates): year pillar, month pillar, index in year (+ three other public routes{}); month objects on every Jie day", years.len(), n, if ctx.quick() { " on every third date" } else { "" }), done, n);
+  if ctx.quick() {
+    // every Jie day of years 1..9998 and the day before it (where both pillars turn), all routes
+    let done = par_chunks(ctx, 25, 24 * 9999, 500, |a, b, l| {
+      for g in a..b {
+        if g % 2 == 0 || tm.t[g].day == u32::MAX {
+          continue;
+        }
+        let o = tm.t[g].day as usize;
+        if o >= 1 && o < civ.len() && civ.date(o).0 <= 9998 {
+          check_day(ctx, &civ, &tm, o - 1, true, l);
+          check_day(ctx, &civ, &tm, o, true, l);
+        }
+      }
+    });
+    ctx.subspace("day view: every Jie day of years 1..9998 and the day before it (all routes)", done, 12 * 9998 * 2);
+  }
   // time view: every Jie of years 1..9998 at -1 s, +0, +1 s
   let done = par_chunks(ctx, 25, 24 * 9999, 500, |a, b, l| {
     for g in a..b {
@@ -244,7 +301,7 @@ pub fn replay(ctx: &Ctx, args: &[String]) {
       let tm = Terms::build_range(ctx, &civ, y.saturating_sub(1), (y + 1).min(10000));
       let o = civ.ord(n[0] as i32, n[1] as u8, n[2] as u8).unwrap();
       println!("replay C08 day {}: model {:?}", fmt_ymd(civ.date(o)), tm.g_of_day(o).map(|g| ym_of_g(g)));
-      check_day(ctx, &civ, &tm, o, &mut l);
+      check_day(ctx, &civ, &tm, o, true, &mut l);
     }
     "inst" => {
       let y = civ.date((n[0] / 86400) as usize).0 as usize;
